@@ -10,22 +10,31 @@ EXTENDS HostsLine, Json, CSV
 
 Members(c) == CASE c = "cA" -> <<"A4", "A6", "A6z">>
                 [] c = "cN" -> <<"N", "Nidn">>
-                [] c = "cJ" -> <<"Nbad", "Abad", "CR", "CMT">>
+                [] c = "cJ" -> <<"Nbad", "Abad", "CR", "CMT", "INV">>
                 [] c = "cS" -> <<"SP", "TAB">>
                 [] c = "cH" -> <<"HASH">>
                 [] OTHER    -> <<c>>
-Refine(s) == [i \in DOMAIN s |-> LET m == Members(s[i]) IN m[((5 * i + 3 * Len(s)) % Len(m)) + 1]]
+Rotate(s) == [i \in DOMAIN s |-> LET m == Members(s[i]) IN m[((7 * i + 3 * Len(s)) % Len(m)) + 1]]
+(* INV (an invisible prefix) only ever starts a field; elsewhere the junk class *)
+(* falls back to CR.                                                          *)
+Refine(s) == LET r == Rotate(s)
+             IN [i \in DOMAIN r |-> IF r[i] = "INV" /\ s[i] = "cJ" /\ i > 1 /\ r[i - 1] \notin SepToks THEN "CR" ELSE r[i]]
 
 (* Two whole-field tokens are never put next to each other: the text of such  *)
 (* a field would be classified by the reference functions in ways no token   *)
 (* alphabet can foresee ("1.2.3.4" glued to "localhost" is a valid name).    *)
 (* Fields still get glued to CR and to junk text.  (The MC configuration     *)
 (* checks the lemmas of HostsLine for all strings, glued or not.)            *)
-Whole == AddrToks \cup NameToks \cup {"Abad", "Nbad"}
-NoWholeGlue(l) == \A i \in 1..(Len(l) - 1) : ~(l[i] \in Whole /\ l[i + 1] \in Whole)
+(* INV is the exception among the name tokens: it is put directly before any  *)
+(* token (BOM + address, BOM + name, BOM + junk) but only at the start of a   *)
+(* field.                                                                     *)
+Whole == AddrToks \cup {"N", "Nidn"} \cup {"Abad", "Nbad"}
+NoWholeGlue(l) == \A i \in 1..(Len(l) - 1) : /\ ~(l[i] \in Whole /\ l[i + 1] \in Whole)
+                                              /\ (l[i + 1] = "INV" => l[i] \in SepToks)
 
 ClassWhole == Whole \cup {"cA", "cN"}
-Prunable(l) == \E i \in 1..(Len(l) - 1) : l[i] \in ClassWhole /\ l[i + 1] \in ClassWhole
+Prunable(l) == \E i \in 1..(Len(l) - 1) : \/ l[i] \in ClassWhole /\ l[i + 1] \in ClassWhole
+                                          \/ l[i + 1] = "INV" /\ l[i] \notin {"SP", "TAB", "cS"}
 GNext == Len(line) < MaxLen /\ \E t \in Alphabet : ~Prunable(Append(line, t)) /\ line' = Append(line, t)
 
 (* The long-line family: an address followed by k names, k around the sizes   *)
